@@ -251,6 +251,7 @@ func hijacked(c *fw.Ctx, e *env, r *fw.Rand) {
 		var wantCalls []string
 		mode := api.PinModeRecursive
 		unpin := true
+		oddBool := false
 		switch route {
 		case "pin/add", "pin/rm":
 			if r.Chance(1, 3) && argValid && sub == "" {
@@ -304,9 +305,10 @@ func hijacked(c *fw.Ctx, e *env, r *fw.Rand) {
 				q.Add("arg", arg)
 				q.Add("arg", "/ipfs/"+to.String())
 			}
-			if u := r.Pick("", "false", "true"); u != "" {
+			if u := r.Pick("", "false", "true", "true", "false", "yes", "1", "True", "0", "no"); u != "" {
 				q.Set("unpin", u)
 				unpin = u != "false"
+				oddBool = u != "true" && u != "false"
 			}
 			wantCalls = []string{"IPFSConnector.Resolve", "Cluster.PinPath"}
 			if unpin {
@@ -364,6 +366,19 @@ func hijacked(c *fw.Ctx, e *env, r *fw.Rand) {
 			for _, cl := range calls {
 				if mutating[cl.Name()] {
 					c.Violation("C12/error-response-but-operation-performed/"+route, fmt.Sprintf("%s %s answered %d and performed %s", method, full, res.status, names(calls)), nil)
+				}
+			}
+			continue
+		}
+		if oddBool {
+			// a value that is not literally true/false may be refused or interpreted;
+			// refused means: nothing was done
+			if res.status >= 400 {
+				for _, cl := range calls {
+					if mutating[cl.Name()] {
+						c.Violation("C12/error-response-but-operation-performed/"+route+"/odd-boolean", fmt.Sprintf("%s %s answered %d and performed %s", method, full, res.status, names(calls)), nil)
+						break
+					}
 				}
 			}
 			continue
